@@ -18,7 +18,7 @@ def b2n (b : Bool) : Nat := if b then 0 else 1
 
 /-- Local (linear) part of the measure of a node. -/
 def loc (nd : Nd) : Nat :=
-  2 * nd.inq + nd.buf + b2n nd.inited + b2n nd.stopping + b2n nd.helperDone + b2n nd.done + b2n nd.failed
+  2 * nd.inq + nd.buf + b2n nd.inited + b2n nd.stopping + b2n nd.helperDone + b2n nd.done + b2n nd.failed + b2n nd.panicked
 
 /-- Σ_i A_i for the suffix, with `acc` points upstream of it. -/
 def muAcc (acc : Nat) : List Nd → Nat
@@ -41,7 +41,7 @@ theorem muAcc_mono {a b : Nat} (h : a ≤ b) (ns : List Nd) : muAcc a ns ≤ muA
 theorem nodeStep_dec_none {env a nd r} (h : nodeStep env a nd none = some r) :
     thru r.nd ≤ thru nd ∧ 8 * thru r.nd + loc r.nd + (if r.looped then 3 else 0) + 1 ≤ 8 * thru nd + loc nd := by
   unfold thru loc b2n
-  nstep h <;> simp_all <;> (try omega) <;> (try (cases nd.inited <;> cases nd.stopping <;> cases nd.helperDone <;> cases nd.done <;> cases nd.failed <;> simp_all <;> omega))
+  nstep h <;> simp_all <;> (try omega) <;> (try (cases nd.inited <;> cases nd.stopping <;> cases nd.helperDone <;> cases nd.done <;> cases nd.failed <;> cases nd.panicked <;> cases isBarrier nd.kind <;> simp_all <;> omega))
 
 /-- node with a child: through-flow never grows, and the pair's weight strictly decreases. -/
 theorem nodeStep_dec_some {env a nd c r c'} (h : nodeStep env a nd (some c) = some r) (hr : r.child = some c') :
@@ -51,7 +51,7 @@ theorem nodeStep_dec_some {env a nd c r c'} (h : nodeStep env a nd (some c) = so
   unfold thru loc b2n
   nstep h
   all_goals (simp only [Option.map_some, Option.some.injEq] at hr; try subst hr)
-  all_goals (simp_all <;> (try omega) <;> (try (cases nd.inited <;> cases nd.stopping <;> cases nd.helperDone <;> cases nd.done <;> cases nd.failed <;> simp_all <;> omega)))
+  all_goals (simp_all <;> (try omega) <;> (try (cases nd.inited <;> cases nd.stopping <;> cases nd.helperDone <;> cases nd.done <;> cases nd.failed <;> cases nd.panicked <;> cases isBarrier nd.kind <;> simp_all <;> omega)))
 
 /-- **Every node action strictly decreases the chain measure** (by 4 or more when a point was looped back). -/
 theorem stepAt_dec {env : Env} {a : NAct} : ∀ {i : Nat} {ns ns' : List Nd} {l : Bool} (acc : Nat),
